@@ -966,8 +966,13 @@ def gen_c09(rng, oracle, run_index, tier="quick"):
             # the caller forgets an object (freed, its address becomes reusable) and builds a same-shaped one right
             # away, then repeats what it had asked the dead one: anything keyed by id()/address would now serve
             # the dead object's data (same-shaped rebuilds land on the freed top-level slot most of the time)
+            referenced = set()
+            for o in g.ops:
+                if o["op"] == "new":
+                    referenced.update(R.refs(o["recipe"]))
             cands = [h for h in g.order if h not in (first, partner) and g.handles[h].get("recipe") is not None
-                     and g.handles[h]["kind"] in ("prop", "cfg")]
+                     and g.handles[h]["kind"] in ("prop", "cfg") and h not in referenced
+                     and not R.refs(g.handles[h]["recipe"])]
             hist = [h for h in cands if g.history.get(h)]
             if cands:
                 dead = rng.choice(hist) if hist else rng.choice(cands)
@@ -1048,6 +1053,26 @@ def gen_c09(rng, oracle, run_index, tier="quick"):
             continue
         g.events.append((op["m"], _rel_tag(g, op["h"], first), tuple(sorted(tags))))
         n += 1
+        if op.get("consume") == "defer" and op.get("out") in g.its and rng.random() < 0.3:
+            # scripted: take some but not all items of the lazy result, abandon it, ask the same thing again
+            it = op["out"]
+            nreq = len((op.get("a") or {}).get("prios") or (op.get("a") or {}).get("objs") or [])
+            for _ in range(rng.randint(1, max(1, nreq - 1))):
+                ref2 = g.emit({"op": "next", "it": it})
+                g.events.append(("next", "it", ()))
+                if isinstance(ref2, dict) and (ref2.get("stop") or "exc" in ref2):
+                    break
+            g.emit({"op": "drop", "it": it})
+            g.events.append(("drop", "it", ()))
+            g.fault("abandon")
+            cidx = g.its.pop(it)
+            e = _retarget(g, g.ops[cidx], op["h"])
+            e["consume"] = "now"
+            e.pop("out", None)
+            g.emit(e)
+            g.events.append((e["m"], "same", ("echo", "after-abandon")))
+            g.hit("echo-after-abandoned-lazy-result")
+            n += 3
         if op["op"] == "call" and rng.random() < echo_prob:
             # echo: the identical request on a near-twin / alias / the same object
             rel_h = [o for o in g.related(op["h"]) if g.handles[o]["kind"] == g.handles[op["h"]]["kind"]]
